@@ -181,8 +181,7 @@ void CoreSMTSolver::addVar_(Var v)
     if (v < nVars()) {
         // These are Necessary in incremental mode since previously
         // ignored vars can now reappear
-        decision[v] = true;
-        insertVarOrder(v);
+        setDecisionVar(v, true); // keeps the count of decision variables in step
         return;
     }
     while (v >= nVars())
